@@ -112,15 +112,50 @@ T2 = {
  'C20-r2-2': ('rpc/server', 'TestDemo2Fresh', 'ProcessRemoteQuery derives the deadline context from stream.Context() again, dropping IncludeMemStore', 'a fresh query with a deadline on a cluster', 'strengthened', 'C20.h'),
 }
 
+# round 3 (two per property): /tmp/seedout3
+T3 = {
+ 'C01-r3-1': ('.', 'TestDemo1If', 'ifExpr.Update returns the buffer unadvanced when the condition excludes the point', 'an IF-conditioned aggregate as a non-last operand of an arithmetic field and a point the condition rejects', 'strengthened', 'C01.h'),
+ 'C01-r3-2': ('.', 'TestDemo2Reads', 'rowStore.iterate copies the memstore and reads rs.fileStore in two separate critical sections', 'a flush completing while a query copies a large memstore', 'strengthened', 'C01.i (= C18.b; the lock-region rule caught it under C02/C03/C18 at once)'),
+ 'C02-r3-1': ('.', 'TestDemo1Reopen', 'CreateTable resumes the WAL reader from offsetsBySource[db.opts.ID] instead of [0]', 'a standalone DB with a non-zero ID, a flush, a restart', 'strengthened', 'C02.l'),
+ 'C02-r3-2': ('.', 'TestDemo2Two', 'a flushed table truncates the shared WAL up to its own persisted offset', 'two tables on one stream with different flush schedules, two kills', 'strengthened', 'C02.m'),
+ 'C03-r3-1': ('.', 'TestDemo1Flush', 'Tree.Walk skips the children of a node already removed for the context', 'the empty-key row on disk plus memstore keys below it', 'strengthened', 'C03.h'),
+ 'C03-r3-2': ('.', 'TestDemo2Forced', 'a forced flush is skipped when the last flush is younger than MinFlushLatency', 'MinFlushLatency > 0 and FlushAll shortly after a flush', 'strengthened', 'C03.i'),
+ 'C04-r3-1': ('.', 'TestDemo1Timed', 'rowStore.iterate marks the file store corrupted when a scan returns an error other than the std context errors', 'an unflat remote query whose deadline expires mid-scan', 'strengthened', 'C04.d'),
+ 'C04-r3-2': ('.', 'TestDemo2Percentile', 'binaryExpr.DeAggregate rewrites its receiver in place', 'a 5-argument PERCENTILE over an arithmetic expression on an arithmetic table field', 'strengthened', 'C04.e'),
+ 'C05-r3-1': ('encoding', 'TestDemo1Merge', 'Sequence.Merge appends the older sequence onto the newer one in place when they are exactly adjacent', 'the newer operand being a sub-slice with foreign capacity behind it', 'initial', 'C05.a (purity)'),
+ 'C05-r3-2': ('encoding', 'TestDemo2SubMerge', 'Sequence.SubMerge reads Until() of the receiver before truncating it', 'a stored coarse series reaching past the roll-up until', 'strengthened', 'C05.h'),
+ 'C06-r3-1': ('.', 'TestDemo1C06', 'fielded.init keeps the field lookup map between resolutions', 'a derived field whose alias equals a source column, re-aggregated', 'strengthened', 'C06.i'),
+ 'C06-r3-2': ('.', 'TestDemo2C06', 'aggregate.Merge merges an unset incoming period as 0 when the destination is set', 'MIN over positive / MAX over negative values with gaps, re-aggregated', 'strengthened', 'C06.h (= C05.d, initially only under C05)'),
+ 'C07-r3-1': ('.', 'TestDemo1Compound', 'ParseDuration hoists the per-component fraction and scale out of the component loop', 'a compound relative offset whose earlier component has a fraction', 'strengthened', 'C07.f'),
+ 'C07-r3-2': ('.', 'TestDemo2Relative', 'DB.now returns the table high-water mark instead of the clock', 'a relative offset on a table whose newest point lags the database clock', 'strengthened', 'C07.g'),
+ 'C08-r3-1': ('planner', 'TestDemo1Outer', 'unflatten.Iterate reuses one output Vals slice for all rows', 'an outer CROSSTAB over a FROM-subquery returning more than one row', 'strengthened', 'C08.h'),
+ 'C08-r3-2': ('planner', 'TestDemo2Having', 'the = and <> conditions compare with a relative epsilon', 'two compared values within 0.001 % of each other', 'strengthened', 'C08.g'),
+ 'C09-r3-1': ('planner', 'TestDemo1OrderBy', 'Less swaps the row variables for _time DESC, the swap survives into later keys', '_time DESC in a non-final position with ties', 'initial', 'C09.a'),
+ 'C09-r3-2': ('planner', 'TestDemo2Cluster', 'planClusterNonPushdown applies ORDER/LIMIT/OFFSET before HAVING', 'cluster non-pushdown query with HAVING and LIMIT', 'strengthened', 'C09.c (returns the slice of the order itself)'),
+ 'C10-r3-1': ('.', 'TestDemo1Cluster', 'the deep copy of the follower specs loses each table whereString', 'two join events, two tables with different WHERE on one stream', 'strengthened', 'C10.j'),
+ 'C10-r3-2': ('.', 'TestDemo2Cluster', 'partitionFor falls back to hashing all dims whenever no key value was hashed', 'points lacking the partition key on a partitioned table, a pushdown query', 'strengthened', 'C10.k'),
+ 'C11-r3-1': ('planner', 'TestDemo1Absolute', 'planClusterNonPushdown no longer resets query.AsOf/Until before the leader group-by', 'a non-pushdown cluster query with absolute ASOF/UNTIL off the resolution grid', 'strengthened', 'C11.i'),
+ 'C11-r3-2': ('planner', 'TestDemo2InSub', 'pointsAndHavingFieldSource returns only _points when the query has no HAVING flag', 'a non-pushed-down IN-subquery with HAVING on a cluster', 'strengthened', 'C11.j (= C08.i)'),
+ 'C13-r3-1': ('planner', 'TestC13Demo1', 'IN-subqueries run under a derived context with half the remaining time', 'a sub-query needing more than half of the deadline, an outer query fitting in the rest', 'strengthened', 'C13.i'),
+ 'C13-r3-2': ('.', 'TestC13Demo2', 'the shared scan treats (more=false, err) as a voluntary stop', 'a deadline or memory-cap error in a plan without a later deadline test', 'initial', 'C13.a'),
+ 'C14-r3-1': ('.', 'TestDemo1', 'CreateTable truncates RetentionPeriod to a multiple of the resolution', 'retention that is not a whole multiple of the resolution', 'strengthened', 'C14.f'),
+ 'C14-r3-2': ('.', 'TestDemo2', 'flush rounds the truncation boundary up to the period grid', 'clock off the period grid, in-retention data in the boundary period, a truncating flush', 'initial', 'C14.b'),
+ 'C15-r3-1': ('.', 'TestDemo1Added', 'fileStore.iterate hoists the per-row columns slice out of the file-row loop', 'ALTER adding a field while the file keeps its old header, values for two on-disk keys', 'strengthened', 'C15.h'),
+ 'C15-r3-2': ('.', 'TestDemo2NewWhere', 'openRowStore resumes from the data file header only, ignoring the offset file', 'rejected points, restart, a WHERE change admitting them', 'strengthened', 'C15.g (= C02.f, initially only under C02/C03/C12)'),
+ 'C16-r3-1': ('.', 'TestDemo1', 'PERCENTILE arity guard loosened to 2..5', 'PERCENTILE with 3 or 4 arguments', 'strengthened', 'C16.i'),
+ 'C16-r3-2': ('.', 'TestDemo2', 'InsertRaw evaluates dims.AsMap() unconditionally as a Tracef argument', 'a truncated or garbled raw dimension map', 'strengthened', 'C16.j'),
+}
+
 def main():
     os.makedirs(DST, exist_ok=True)
     n = 0
     allT = dict(T)
     allT.update(T2)
+    allT.update(T3)
     for key, (ddir, pat, what, needs, status, rule) in sorted(allT.items()):
         parts = key.split('-')
         prop, k = parts[0], parts[-1]
-        src = os.path.join('/tmp/seedout2' if 'r2' in parts else SRC, prop)
+        src = os.path.join('/tmp/seedout3' if 'r3' in parts else ('/tmp/seedout2' if 'r2' in parts else SRC), prop)
         cj = os.path.join(src, 'confirm%s.json' % k)
         if not os.path.exists(cj):
             print('skip (no confirmation yet):', key)
